@@ -192,6 +192,15 @@ def unpickle_sites(program, start, depth=0, seen=None):
                 'pickle', 'cPickle', '_pickle')) or cname == 'Unpickler':
             out.append(([], inner, call))
             continue
+        # <UnpicklerSubclass>(file).load()
+        if cname == 'load' and isinstance(receiver(call), ast.Call):
+            from ..loader import ClassInfo
+            klass = program.resolve_name_expr(inner.module,
+                                              receiver(call).func, inner)
+            if isinstance(klass, ClassInfo) and any(
+                    'Unpickler' in b for b in program.base_names(klass)):
+                out.append(([], inner, call))
+                continue
         cands, how = program.resolve_call(inner, call)
         if how == 'by-unique-name':
             continue
@@ -202,12 +211,44 @@ def unpickle_sites(program, start, depth=0, seen=None):
     return out
 
 
+def _check_reader_accepts_all(ctx, sites):
+    '''"returns exactly the entry that was written": the writer pickles the
+    entries as they are; a reader with its own Unpickler subclass whose
+    find_class / persistent_load RAISES for some globals refuses entries the
+    writer produced (and the handler of damaged files then swallows the
+    refusal): an intact DONE entry silently comes back as not done.'''
+    from ..loader import ClassInfo
+    program = ctx.program
+    for _chain, func, call in sites:
+        recv = receiver(call)
+        if not isinstance(recv, ast.Call):
+            continue
+        klass = program.resolve_name_expr(func.module, recv.func, func)
+        if not isinstance(klass, ClassInfo):
+            continue
+        for mname in ('find_class', 'persistent_load'):
+            meth = klass.methods.get(mname)
+            if meth is None:
+                continue
+            raises = [n for n in walk_local(meth.node)
+                      if isinstance(n, ast.Raise)]
+            ctx.decide('READ-FAITHFUL', meth,
+                       f'{klass.name}.{mname} accepts every global the '
+                       f'writer may have pickled', not raises,
+                       at=meth.where(raises[0]) if raises else meth.where(),
+                       detail=None if not raises else
+                       'a restricted unpickler turns a complete, correct '
+                       'file into a "damaged" one: the task is re-run on '
+                       'every invocation')
+
+
 def check_exc_cover(ctx):
     program = ctx.program
     start = program.func(READ_ENV)
     sites = unpickle_sites(program, start)
     ctx.floor('EXC-COVER', len(sites), 1,
               'pickle.load(s) reachable from read_env')
+    _check_reader_accepts_all(ctx, sites)
     done = set()
     for chain, func, call in sites:
         if id(call) in done:
@@ -471,3 +512,35 @@ def check_read_path(ctx):
                    'special characters of the root / file name and hidden '
                    'task directories make intact entries invisible')
     ctx.floor('READ-PATH', n, 1, 'from_file call in read_env')
+
+
+# --------------------------------------------------------- READ-NORAISE ---
+
+def check_read_noraise(ctx):
+    """"reading neither raises nor returns a partial entry": an
+    exception-escape analysis below cambronne.common.read_env (explicit raise
+    sites of the repo functions it reaches, propagated through the handlers
+    around each call site) - no exception class may leave read_env.  A
+    helper that VALIDATES a name and raises (sanitize_filename on a task name
+    with a slash) turns "file not there: not done" into an abort of the run
+    before anything is scheduled."""
+    from ..excdom import ExcAnalysis
+    program = ctx.program
+    func = program.func('valjean.cambronne.common:read_env')
+    ana = ExcAnalysis(program, tainted_modules=set(), by_unique_name=False)
+    esc = ana.escapes(func)
+    for key in ana.functions:
+        program.consulted.add(program.func(key).module.relpath)
+    for cls_, chain in sorted(esc.items()):
+        origin = chain[-1].split(' (')[0][:90]
+        ctx.violated('READ-NORAISE', func,
+                     f'{cls_} can leave read_env: {origin}', at=func.where(),
+                     detail={'witness_chain': chain})
+    if not esc:
+        ctx.holds('READ-NORAISE', func,
+                  f'no exception leaves read_env '
+                  f'({len(ana.functions)} functions, {ana.n_raise_sites} '
+                  f'raise sites examined)', at=func.where(),
+                  nontrivial=True)
+    ctx.floor('READ-NORAISE', len(ana.functions), 3, 'functions reachable '
+              'from read_env')
